@@ -15,6 +15,7 @@ Symbolic cursor for one token: the list of symbols *pulled* from the character i
 token started and a `pending` flag (the last pulled symbol is pushed back).  A lexeme is described
 by `back` = how many trailing pulled symbols are not part of it (0 or 1).
 """
+import re
 from ..core import Undecided
 from ..patset import Char, EnumVal, Evaluator
 
@@ -32,6 +33,9 @@ class _Continue(Exception):
 class _Return(Exception):
     def __init__(self, v):
         self.v = v
+
+
+EXTRA_FINDINGS = {}  # findings discovered while interpreting the lexer (reported by run)
 
 
 class Opaque:
@@ -393,6 +397,12 @@ class LexInterp:
         if k == "call":
             return self.call(e, env)
         if k == "struct":
+            res = e.get("res") or []
+            nm = str(res[2]) if len(res) > 2 else ""
+            if re.search(r"ops::Range(Inclusive)?$", nm):
+                fs = dict((fn_, self.eval(fe, env)) for fn_, fe in e.get("fields", []))
+                if isinstance(fs.get("start"), int) and isinstance(fs.get("end"), int):
+                    return ("range", int(fs["start"]), int(fs["end"]), nm.endswith("Inclusive"))
             raise Undecided("struct expression inside the lexer loop")
         if k == "tup":
             return tuple(self.eval(x, env) for x in e["es"])
@@ -459,6 +469,16 @@ class LexInterp:
             raise Undecided("char method `%s` is outside the closed list" % m)
         if m == "unwrap" and isinstance(recv, Opaque):
             return recv
+        if m == "contains" and isinstance(recv, tuple) and recv and recv[0] == "range" and args and isinstance(args[0], Opaque) and args[0].what == "from_str_radix":
+            # `(lo..hi).contains(&code_point)`: a hand-written surrogate test.  It has to denote
+            # exactly the code points that are not scalar values, U+D800..=U+DFFF - the decoder
+            # unwraps char::from_u32 on everything the lexer lets through.
+            lo, hi, incl = recv[1], recv[2], recv[3]
+            hi_incl = hi if incl else hi - 1
+            if (lo, hi_incl) != (0xD800, 0xDFFF):
+                wrong = 0xDFFF if hi_incl < 0xDFFF else (0xD800 if lo > 0xD800 else (hi_incl if hi_incl > 0xDFFF else lo))
+                EXTRA_FINDINGS[("surrogate-range", lo, hi_incl)] = ("the surrogate test of \\uXXXX escapes is %#06x..=%#06x, not 0xd800..=0xdfff: for `\\u%04X` the lexer and char::from_u32 disagree (an accepted surrogate makes the string decoder panic; a rejected scalar value is a valid escape)" % (lo, hi_incl, wrong))
+            return self.cur.surrogate_oracle()
         if m == "is_none" and isinstance(recv, Opaque) and recv.what == "from_u32":
             # char::from_u32(code point of the four hex digits just consumed).is_none()
             return self.cur.surrogate_oracle()
@@ -894,5 +914,8 @@ def run(prog, rep, ev=None, sigma=None):
     rep.extra["dfa"] = {k: v for k, v in stats.items()}
     for f in fs:
         rep.finding("C03.DFA", adv.name, f["site"], "%s; witness input: `%s`" % (f["msg"], f["input"]), adv.loc(), detail=f)
+    for key, msg in sorted(EXTRA_FINDINGS.items(), key=lambda kv: str(kv[0])):
+        rep.finding("C03.DFA", adv.name, key[0], msg, adv.loc())
+    EXTRA_FINDINGS.clear()
     rep.assume("Cursor primitives bump/eatc/current_str/prev_str/drain/is_pending behave as modelled over the symbolic cursor (their bodies: C02/C03.PARTITION, C01 inventory)")
     rep.assume("reference choices: SourceCharacter = any Unicode scalar value inside strings and comments; runs of ignored whitespace (TAB, SP, LF, CR, BOM) form one Whitespace token; `,` is a Comma token; braced and surrogate unicode escapes are invalid")
